@@ -27,7 +27,7 @@ From Emmet Require Import lib.Base lib.StrLit model.MarkupTokenizer model.Markup
      model.MarkupResolve model.OutStream model.FormatHtml model.FormatIndent model.MarkupExpand
      gen.GenMarkupSnippets
      proofs.ParserSpine proofs.TokenizeRender proofs.ConvertProofs proofs.HtmlEvents
-     proofs.ExpandTree proofs.ExpandFlat.
+     proofs.ExpandTree proofs.ExpandFlat proofs.ExpandRepeat.
 
 Theorem C01_expand_tree_flat :
   forall (x : xconfig) (xs : list (str * sop)),
@@ -37,6 +37,22 @@ Theorem C01_expand_tree_flat :
       nestT 0 (tags st) = map (fun p => (fst p, tag_name (xc_o x) (snd p))) (sdenote 0 xs).
 Proof. exact expand_tree_flat. Qed.
 Print Assumptions C01_expand_tree_flat.
+
+(* the same with `*N` repeaters on elements.  Syntax: every name may be followed by `*` and a
+   non-empty run of digits ([render2]).  Spec [unrollS xs] = [unrollD] of the depth-counter list
+   [sdenote2 0 xs] of (depth, name, copies): an element with k copies stands for k consecutive
+   copies of itself, each followed by everything written deeper right after it (its descendants,
+   unrolled the same way); `*0` is read as one copy.  Domain [rep_ok]: as [flat_ok], every count a
+   digit run, and the number of elements of the unrolled tree within the repeat budget (maxRepeat,
+   1000000 when not set; beyond it the output is cut: C02). *)
+Theorem C01_expand_tree_repeat :
+  forall (x : xconfig) (xs : list (ritem * sop)),
+    rep_ok x xs = true ->
+    exists st,
+      expand_markup x (render2 xs) = Ok st /\
+      nestT 0 (tags st) = map (fun p => (fst p, tag_name (xc_o x) (snd p))) (unrollS xs).
+Proof. exact expand_tree_rep. Qed.
+Print Assumptions C01_expand_tree_repeat.
 
 (* the tree level it rests on, for token trees with `*N` and groups as well: whenever the text
    tokenizes and parses to a tree of bare fine names (written repeaters only) whose copy count
@@ -83,4 +99,20 @@ Example C01_expand_domain_excludes :
   flat_ok (mkX ex_m (ex_o true "html")) [(S "lorem", SSibling)] = false /\
   flat_ok (mkX ex_m (ex_o true "html")) [(S "label", SChild); (S "input", SSibling)] = false /\
   flat_ok (mkX ex_m (ex_o true "html")) [(S "labelx", SChild); (S "section", SSibling)] = true.
+Proof. vm_compute. repeat split; reflexivity. Qed.
+
+(* non-vacuity of the repeater theorem: "x>foo*3>zz^bar*2" *)
+Definition ex_rs : list (ritem * sop) :=
+  [((S "x", None), SChild); ((S "foo", Some (S "3")), SChild); ((S "zz", None), SClimb 0); ((S "bar", Some (S "2")), SSibling)].
+Example C01_expand_repeat_nonvacuous :
+  rep_ok (mkX ex_m (ex_o true "html")) ex_rs = true /\
+  rep_ok (mkX ex_m (ex_o false "xml")) ex_rs = true /\
+  render2 ex_rs = S "x>foo*3>zz^bar*2" /\
+  unrollS ex_rs = [(0, S "x"); (1, S "foo"); (2, S "zz"); (1, S "foo"); (2, S "zz"); (1, S "foo"); (2, S "zz");
+                   (1, S "bar"); (1, S "bar")] /\
+  match expand_markup (mkX ex_m (ex_o false "xml")) (render2 ex_rs) with
+  | Ok st => nestT 0 (tags st) = unrollS ex_rs /\
+             os_value (fs_out st) = S "<x><foo><zz></zz></foo><foo><zz></zz></foo><foo><zz></zz></foo><bar></bar><bar></bar></x>"
+  | _ => False
+  end.
 Proof. vm_compute. repeat split; reflexivity. Qed.
